@@ -730,6 +730,7 @@ package decimal
 //@        mulspec(z, old(V(x.mant)), old(len(x.mant)), old(x.exp), old(V(y.mant)), old(len(y.mant)), old(y.exp))
 //@   ensures[specials,C04] (old(x.form) == inf || old(y.form) == inf ==> z.form == inf && z.acc == 0) &&
 //@        ((old(x.form) == zero || old(y.form) == zero) ==> z.form == zero && z.acc == 0)
+//@   ensures[lower,C01] old(x.form) == finite && old(y.form) == finite && old(x.exp) + old(y.exp) - 1 >= MinExp ==> z.form != zero && (z.form == finite ==> z.exp >= old(x.exp) + old(y.exp) - 1)
 //@   panics[nan,C04] (old(x.form) == zero && old(y.form) == inf) || (old(x.form) == inf && old(y.form) == zero)
 //@   onpanic[valid,C04,C08] valid(z)
 
@@ -841,6 +842,7 @@ package decimal
 //@   ensures[result] result == z
 //@   ensures[prec,C09] z.prec == (old(z.prec) == 0 ? DefaultDecimalPrec : old(z.prec))
 //@   ensures[sign,C14] z.neg == neg
+//@   ensures[buffer,C18] buffer_ok(z)
 //@   ensures[zero,C14,C02] x == 0 ==> z.form == zero && z.acc == 0
 //@   ensures[nonzero,C14] x != 0 ==> z.form != zero || z.acc != 0
 //@   ensures[range,C14,C02] x != 0 ==> (exp > MaxExp ==> z.form == inf && z.acc == (neg ? 0 - 1 : 1)) && (exp < MinExp - 40 ==> z.form == zero && z.acc == (neg ? 1 : 0 - 1))
@@ -879,6 +881,7 @@ package decimal
 //@   ensures[result] result == z
 //@   ensures[prec,C09] z.prec == (old(z.prec) == 0 ? DefaultDecimalPrec : old(z.prec))
 //@   ensures[sign,C14] z.neg == false
+//@   ensures[buffer,C18] buffer_ok(z)
 //@   ensures[zero,C14,C02] x == 0 ==> z.form == zero && z.acc == 0
 //@   ghost gL, gs
 //@   ensures[norm,C14] x != 0 ==> 1 <= gL && gL <= 2 && 0 <= gs && gs <= 18 && P(gL) <= 10*(x*p10(gs)) && x*p10(gs) < P(gL)
